@@ -222,6 +222,8 @@ def run(rng: Rng, tier: str, index: int) -> RunResult:
             else:
                 material = S.gen_material(krng.sub("m"), kind, rare)
                 how = krng.pick(["jwk", "pem", "der", "native"]) if kind[0] != "oct" else krng.pick(["jwk", "raw"])
+                if kind[0] == "RSA" and krng.chance(0.25):
+                    how = "jwk-d-only"
                 jkey = S.provision(material, how, params)
         except Exception as e:
             res.violation(ID, "provision:failed", "could not create a %r key: %s: %s" % (kind, type(e).__name__, e), {"kind": list(kind)})
